@@ -70,6 +70,16 @@ def decompose_qpd_instructions(
                 f"The number of map IDs ({len(map_ids)}) must equal the number of "
                 f"decompositions in the circuit ({len(instruction_ids)})."
             )
+        # Validate every map ID before assigning any, so that an invalid ID
+        # leaves the input circuit untouched.
+        for i, decomp_gate_ids in enumerate(instruction_ids):
+            for gate_id in decomp_gate_ids:
+                num_maps = len(circuit.data[gate_id].operation.basis.maps)
+                if map_ids[i] is not None and map_ids[i] not in range(num_maps):
+                    raise ValueError(
+                        f"Map ID ({map_ids[i]}) is out of range for the basis of the "
+                        f"gate at index {gate_id}, which has {num_maps} maps."
+                    )
         # If mapping is specified, set each gate's mapping
         for i, decomp_gate_ids in enumerate(instruction_ids):
             for gate_id in decomp_gate_ids:
